@@ -628,6 +628,7 @@ def make_libs():
         'os': os,
         're': __import__('pyvc.lib.regex', fromlist=['ReModule']).ReModule,
         'textwrap': textwrap,
+        'unicodedata': __import__('unicodedata'),       # the real module: pure functions of concrete strings
         'datetime': datetime,
         'time': Dummy('time'),
         'sys': SysModule,
